@@ -234,15 +234,51 @@ def decide_verus_unit(unit, tier, workdir):
         }
 
 
+def find_provider(fn_name):
+    """a unit that PROVES a contract of the free function fn_name (used when changed code starts calling a helper the unit did not list)"""
+    for name, other in sorted(load_units().items()):
+        if other.get("backend") != "verus" or other.get("enabled") is False:
+            continue
+        try:
+            ctxt = open(os.path.join(other["dir"], "contract.rs")).read()
+        except OSError:
+            continue
+        if not re.search(r"(?m)^@fn " + re.escape(fn_name) + r"(?: -> \w+)?[ \t]*$", ctxt):
+            continue
+        for src in other.get("sources", []):
+            if ("fn " + fn_name) in src.get("items", []):
+                return other, src["path"]
+    return None
+
+
 def _decide_verus_unit(unit, tier, workdir, W, seed):
-    try:
-        main = run_verus(unit, workdir)
-    except Infra as e:
-        # time-out, lost anchor (the code was restructured) or a construct the verifier rejects: undecided.
-        # If the unit has an executable postcondition, the search on the real code may still decide it.
-        if "time-out" in str(e) or "EXTRACTION-LOST" in str(e) or "verus rejected the extracted text" in str(e):
-            raise Undecided(str(e))
-        raise
+    main = None
+    for _attempt in range(4):
+        try:
+            main = run_verus(unit, workdir)
+            break
+        except Infra as e:
+            # the code now calls a helper that is not part of the unit: pull it in WITH the contract proved for it elsewhere (modular
+            # reasoning: the caller is checked against the callee's contract).  A helper without a proved contract stays undecided.
+            m = re.search(r"cannot find function `(\w+)` in this scope", str(e)) if "verus rejected the extracted text" in str(e) else None
+            prov = find_provider(m.group(1)) if m else None
+            if prov and not any(i.get("fn") == m.group(1) for i in unit.get("import_assumed", [])):
+                other, path = prov
+                unit = dict(unit)
+                unit["sources"] = list(unit.get("sources", [])) + [{"path": path, "items": ["fn " + m.group(1)]}]
+                unit["import_assumed"] = list(unit.get("import_assumed", [])) + [{"unit": other["name"], "fn": m.group(1)}]
+                unit["spec"] = list(unit.get("spec", [])) + [x for x in other.get("spec", []) if x not in unit.get("spec", [])]
+                unit["prelude"] = list(unit.get("prelude", [])) + [x for x in other.get("prelude", []) if x not in unit.get("prelude", [])]
+                unit["rules"] = list(unit.get("rules", [])) + [x for x in other.get("rules", []) if x not in unit.get("rules", [])]
+                unit["auto_imported"] = list(unit.get("auto_imported", [])) + [f"{m.group(1)} (contract from {other['name']})"]
+                continue
+            # time-out, lost anchor (the code was restructured) or a construct the verifier rejects: undecided.
+            # If the unit has an executable postcondition, the search on the real code may still decide it.
+            if "time-out" in str(e) or "EXTRACTION-LOST" in str(e) or "verus rejected the extracted text" in str(e):
+                raise Undecided(str(e))
+            raise
+    if main is None:
+        raise Undecided(f"{unit['name']}: helper functions could not be resolved")
     rep = main["report"]
     rn = (unit.get("opts") or {}).get("rename_fns") or {}   # R33: extracted functions renamed to avoid a clash with a ghost name
     for f in rep["functions"]:
